@@ -47,7 +47,18 @@ macro_rules! gh_object {
         let mut h = GenericHash::<$k, $o>::new(key.as_ref()).unwrap();
         h.update($m);
         let b: StackByteArray<$o> = h.finalize().unwrap();
-        if a != b.as_slice() {
+        let mut same = a == b.as_slice();
+        if $k == 32 && $o == 32 {
+            // the *_with_defaults conveniences exist for the default lengths only
+            let k32: Option<[u8; 32]> = key.as_ref().map(|k| k.as_slice().try_into().unwrap());
+            let c: StackByteArray<32> = GenericHash::hash_with_defaults(&$m.to_vec(), k32.as_ref()).unwrap();
+            let d: Vec<u8> = GenericHash::hash_with_defaults_to_vec(&$m.to_vec(), k32.as_ref()).unwrap();
+            let mut h = GenericHash::new_with_defaults(k32.as_ref()).unwrap();
+            h.update($m);
+            let e: Vec<u8> = h.finalize_to_vec().unwrap();
+            same &= a == c.as_slice() && a == d && a == e;
+        }
+        if !same {
             vec![]
         } else {
             a
@@ -233,7 +244,14 @@ pub fn run() -> i32 {
             crypto_hash_sha512(&mut d, &m);
             let o: StackByteArray<64> = Sha512::compute(&m);
             let ov = Sha512::compute_to_vec(&m);
-            let ok = d == want && o.as_slice() == &want[..] && ov == want;
+            // the copy-into-output forms, into buffers that already hold something
+            let mut oi = StackByteArray::<64>::from(&[0xa5u8; 64]);
+            Sha512::compute_into_bytes(&mut oi, &m);
+            let mut oj = [0x5au8; 64];
+            let mut h = Sha512::new();
+            h.update(&m);
+            h.finalize_into_bytes(&mut oj);
+            let ok = d == want && o.as_slice() == &want[..] && ov == want && oi.as_slice() == &want[..] && oj == want;
             st.eval(&("sha512", len, ci), true, if ok { "sha512==libsodium" } else { "sha512-differs" });
             if !ok {
                 fail(st, "sha512", "differs", format!("len {} content {}", len, C_NAMES[ci]), json!({"prim": "sha512", "msg": hx(&m)}));
